@@ -481,7 +481,7 @@ def enumerate_items(tier, rng):
             for bi in range(nA):
                 for ci, ctx in enumerate(ctxs):
                     sigi = (ai + bi + ci) % len(SIGS)
-                    for o in ((ai + bi) % 6, (ai + bi + 3) % 6):
+                    for o in (((ai + bi) % 6, (ai + bi + 3) % 6) if (ai + bi + ci) % 3 == 0 else ((ai + 2 * bi + ci) % 6,)):
                         items.append((sigi, ctx, ai, bi, bool((ai + bi + ci) % 2), False, o))
     for kind, atoms in (("dyn", DYN_ATOMS), ("inh", INH_ATOMS)):
         for ai in range(len(atoms)):
@@ -491,7 +491,7 @@ def enumerate_items(tier, rng):
     random.Random(20261002).shuffle(items)        # fixed order: a run cut by the budget still spans every kind
     n_exh = len(items)
     # depth 3: sampled
-    ndeep = 300 if tier == "quick" else 12000
+    ndeep = 300 if tier == "quick" else 8000
     for i in range(ndeep):
         items.append(("deep", rng.randrange(1 << 30), rng.randrange(len(SIGS)), bool(rng.randrange(2)),
                       rng.randrange(norders)))
